@@ -6,7 +6,7 @@ CHECK = {
         # sequential layout enumeration: asan+ubsan (page red zones, poisoned free pages) and plain (NDEBUG)
         three("c20_logging", scales=(0, 1.0, 1.0), mode="layout")
         # concurrent appender episodes
-        + three("c20_logging", scales=(0.3, 0.5, 1.0), mode="appender")
+        + three("c20_logging", scales=(0.25, 0.4, 1.0), mode="appender")
         # the close()-against-a-full-queue configuration in its own processes: on the unchanged tree the
         # first such episode ends the process (known finding C20-close-full-queue), without masking the rest
         + three("c20_logging", scales=(0.5, 0.75, 1.0), mode="closefull")
